@@ -42,6 +42,7 @@ struct prog_t
     evec_t b;
     emat_t G; ///< m x n
     evec_t h;
+    bool   box{false}; ///< the first 2n inequality rows are x <= upper, -x <= -lower: stated with make_less / make_greater
 
     int n() const { return static_cast<int>(c.size()); }
 
@@ -71,39 +72,81 @@ const char* status_name(const solver_status s)
     }
 }
 
-solver_state_t solve(const prog_t& P, const evec_t* x0)
+///
+/// \brief state the program through the public API and solve it. `how` (random bits of the case) selects how the caller
+///     states the constraints: one block per kind, or inequalities / equalities split into two interleaved blocks
+///     (exercises program::stack), or bounds through make_less / make_greater (when P.box).
+///
+solver_state_t solve(const prog_t& P, const evec_t* x0, const uint64_t how = 0)
 {
     const auto n = P.n(), p = P.p(), m = P.m();
-    matrix_t   tA{p, n}, tG{m, n}, tQ{n, n};
-    vector_t   tb{p}, th{m}, tc{n}, tx0{n};
-    tA.matrix() = P.A;
-    tG.matrix() = P.G;
+    matrix_t   tQ{n, n};
+    vector_t   tc{n}, tx0{n};
     tQ.matrix() = P.Q;
-    tb.vector() = P.b;
-    th.vector() = P.h;
     tc.vector() = P.c;
     if (x0 != nullptr)
     {
         tx0.vector() = *x0;
     }
+    const auto rows = [&](const emat_t& M, const evec_t& r, const int from, const int count)
+    {
+        matrix_t tM{count, n};
+        vector_t tr{count};
+        tM.matrix() = M.middleRows(from, count);
+        tr.vector() = r.segment(from, count);
+        return std::make_pair(tM, tr);
+    };
+
     const auto solver = solver_t{};
     const auto logger = make_null_logger();
     const auto run    = [&](const auto& program)
     { return (x0 != nullptr && m > 0) ? solver.solve(program, tx0, logger) : solver.solve(program, logger); };
+    const auto go = [&](const auto&... constraints)
+    { return P.qp ? run(make_quadratic(tQ, tc, constraints...)) : run(make_linear(tc, constraints...)); };
 
-    if (P.qp)
+    if (P.box && m >= 2 * n)
     {
-        if (p > 0 && m > 0)
+        vector_t upper{n}, lower{n};
+        upper.vector()  = P.h.head(n);
+        lower.vector()  = -P.h.segment(n, n);
+        const auto rest = m - 2 * n;
+        const auto R    = rows(P.G, P.h, 2 * n, rest);
+        const auto E    = rows(P.A, P.b, 0, p);
+        if (p == 0)
         {
-            return run(make_quadratic(tQ, tc, make_equality(tA, tb), make_inequality(tG, th)));
+            return rest == 0 ? go(make_less(upper), make_greater(lower))
+                             : go(make_less(upper), make_inequality(R.first, R.second), make_greater(lower));
         }
-        return m > 0 ? run(make_quadratic(tQ, tc, make_inequality(tG, th))) : run(make_quadratic(tQ, tc, make_equality(tA, tb)));
+        return rest == 0 ? go(make_less(upper), make_equality(E.first, E.second), make_greater(lower))
+                         : go(make_greater(lower), make_equality(E.first, E.second), make_inequality(R.first, R.second),
+                              make_less(upper));
     }
-    if (p > 0 && m > 0)
+
+    const bool si = m >= 2 && (how & 1U) != 0U;
+    const bool se = p >= 2 && (how & 2U) != 0U;
+    const int  k  = si ? 1 + static_cast<int>((how >> 8U) % static_cast<uint64_t>(m - 1)) : m;
+    const int  j  = se ? 1 + static_cast<int>((how >> 24U) % static_cast<uint64_t>(p - 1)) : p;
+    const auto I1 = rows(P.G, P.h, 0, k), I2 = rows(P.G, P.h, k, m - k);
+    const auto E1 = rows(P.A, P.b, 0, j), E2 = rows(P.A, P.b, j, p - j);
+    const auto i1 = make_inequality(I1.first, I1.second), i2 = make_inequality(I2.first, I2.second);
+    const auto e1 = make_equality(E1.first, E1.second), e2 = make_equality(E2.first, E2.second);
+    if (p == 0)
     {
-        return run(make_linear(tc, make_equality(tA, tb), make_inequality(tG, th)));
+        return si ? go(i1, i2) : go(i1);
     }
-    return m > 0 ? run(make_linear(tc, make_inequality(tG, th))) : run(make_linear(tc, make_equality(tA, tb)));
+    if (m == 0)
+    {
+        return se ? go(e1, e2) : go(e1);
+    }
+    if (!si && !se)
+    {
+        return (how & 4U) != 0U ? go(i1, e1) : go(e1, i1);
+    }
+    if (si && !se)
+    {
+        return go(i1, e1, i2);
+    }
+    return si ? go(i1, e1, i2, e2) : go(e1, i1, e2);
 }
 
 vf::json_t describe(const prog_t& P, const size_t limit = 160)
@@ -301,6 +344,7 @@ restated_t restate(vf::rng_t& rng, const prog_t& P, const ref_t& ref, const evec
 {
     restated_t R{P, ref, x0, ""};
     const auto n = P.n(), p = P.p(), m = P.m();
+    R.P.box      = false; // restated programs are stated with generic blocks
 
     // kinds: 0 dup-eq, 1 comb-eq, 2 scale-ineq, 3 scale-obj, 4 scale-eq, 5 perm-vars, 6 perm-rows
     std::vector<int> kinds = {3, 5};
@@ -491,8 +535,9 @@ void case_kkt(vf::ctx_t& c)
     const bool small = rng.chance(0.25);
     const int  n     = static_cast<int>(small ? rng.integer(1, 3) : rng.integer(1, 12));
     const int  p     = static_cast<int>(rng.integer(0, n - 1));
-    const int  m     = static_cast<int>(rng.integer(1, 2 * n + 2));
     const bool qp    = rng.chance(0.5);
+    const bool box   = rng.chance(0.15); // bounds lower <= x <= upper stated through make_less / make_greater
+    const int  m     = box ? 2 * n + static_cast<int>(rng.integer(0, 2)) : static_cast<int>(rng.integer(1, 2 * n + 2));
 
     // magnitudes 1e-2 .. 1e2 per block
     const double sx = rng.loguniform(1e-2, 1e2);
@@ -504,7 +549,8 @@ void case_kkt(vf::ctx_t& c)
     const double ss = rng.loguniform(1e-2, 1e2); // slack of the inactive rows, relative to |G_i| |x*|
 
     prog_t P;
-    P.qp = qp;
+    P.qp  = qp;
+    P.box = box;
     evec_t xs(n), w(n);
     for (int j = 0; j < n; ++j)
     {
@@ -515,7 +561,7 @@ void case_kkt(vf::ctx_t& c)
 
     P.A.resize(p, n);
     P.G.resize(m, n);
-    const bool rowscales = rng.chance(0.5);
+    P.h.resize(m);
     for (int i = 0; i < p; ++i)
     {
         for (int j = 0; j < n; ++j)
@@ -523,9 +569,18 @@ void case_kkt(vf::ctx_t& c)
             P.A(i, j) = sA * rng.normal();
         }
     }
-    for (int i = 0; i < m; ++i)
+    P.b = P.A * xs;
+    evec_t u = evec_t::Zero(m), v(p);
+    for (int i = 0; i < p; ++i)
     {
-        const double rs = rowscales ? rng.loguniform(0.1, 10.0) : 1.0;
+        v(i) = sv * rng.normal();
+    }
+
+    const bool rowscales  = rng.chance(0.5);
+    const bool nointerior = !box && rng.chance(0.03);
+    const auto random_row = [&](const int i)
+    {
+        const double rs     = rowscales ? rng.loguniform(0.1, 10.0) : 1.0;
         const bool   sparse = rng.chance(0.15);
         for (int j = 0; j < n; ++j)
         {
@@ -535,50 +590,100 @@ void case_kkt(vf::ctx_t& c)
         {
             P.G(i, static_cast<int>(rng.integer(0, n - 1))) = sG * rs;
         }
-    }
-    P.b = P.A * xs;
+    };
+    double     tmax         = 1.0;
+    const auto inactive_row = [&](const int i)
+    {
+        const double slack = ss * (0.1 + rng.uniform(0.0, 2.0)) * std::max(1e-3, P.G.row(i).norm() * sx);
+        P.h(i)             = P.G.row(i).dot(xs) + slack;
+        const double gw    = P.G.row(i).dot(w);
+        if (gw > 0.0)
+        {
+            tmax = std::min(tmax, 0.5 * slack / gw);
+        }
+    };
 
     // active set: u* > 0 on `nactive` rows, optionally some weakly active rows (tight with u* = 0)
-    int nactive = static_cast<int>(rng.integer(0, std::min(m, n - p)));
-    if (!qp && rng.chance(0.7))
+    int nactive = 0, nweak = 0;
+    if (box)
     {
-        nactive = std::min(m, n - p); // a vertex
-    }
-    const int  nweak      = (rng.chance(0.15) && m > nactive) ? static_cast<int>(rng.integer(1, std::min(2, m - nactive))) : 0;
-    const bool nointerior = rng.chance(0.03);
-    evec_t     u = evec_t::Zero(m), v(p);
-    for (int i = 0; i < p; ++i)
-    {
-        v(i) = sv * rng.normal();
-    }
-    P.h.resize(m);
-    double tmax = 1.0;
-    for (int i = 0; i < m; ++i)
-    {
-        const double gx = P.G.row(i).dot(xs);
-        if (i < nactive + nweak)
+        P.G.setZero();
+        const double pact = rng.pick(std::vector<double>{0.2, 0.5, 0.8});
+        for (int j = 0; j < n; ++j)
         {
-            // tight at x*; keep the interior direction w strictly inside (Slater) unless `nointerior`
-            if (!nointerior && P.G.row(i).dot(w) > 0.0)
+            const int where = rng.chance(pact) ? static_cast<int>(rng.integer(1, 2)) : 0; // 0 inside, 1 at upper, 2 at lower
+            const bool weak = rng.chance(0.1);
+            P.G(j, j)       = 1.0;
+            P.G(n + j, j)   = -1.0;
+            if (where == 1)
             {
-                P.G.row(i) *= -1.0;
+                w(j)   = -std::fabs(w(j)) - 1e-3 * sx;
+                P.h(j) = xs(j);
+                u(j)   = weak ? 0.0 : su * rng.uniform(0.1, 3.0);
+                inactive_row(n + j);
             }
-            u(i)   = i < nactive ? su * rng.uniform(0.1, 3.0) : 0.0;
-            P.h(i) = P.G.row(i).dot(xs);
+            else if (where == 2)
+            {
+                w(j)       = std::fabs(w(j)) + 1e-3 * sx;
+                P.h(n + j) = -xs(j);
+                u(n + j)   = weak ? 0.0 : su * rng.uniform(0.1, 3.0);
+                inactive_row(j);
+            }
+            else
+            {
+                inactive_row(j);
+                inactive_row(n + j);
+            }
+            nactive += (where != 0 && !weak) ? 1 : 0;
+            nweak += (where != 0 && weak) ? 1 : 0;
         }
-        else
+        // the direction w changed after some slack rows were visited: recompute the step bound
+        tmax = 1.0;
+        for (int i = 0; i < 2 * n; ++i)
         {
-            const double slack = ss * (0.1 + rng.uniform(0.0, 2.0)) * std::max(1e-3, P.G.row(i).norm() * sx);
-            P.h(i)             = gx + slack;
+            const double slack = P.h(i) - P.G.row(i).dot(xs);
             const double gw    = P.G.row(i).dot(w);
-            if (gw > 0.0)
+            if (slack > 0.0 && gw > 0.0)
             {
                 tmax = std::min(tmax, 0.5 * slack / gw);
             }
         }
+        for (int i = 2 * n; i < m; ++i)
+        {
+            random_row(i);
+            inactive_row(i);
+        }
     }
-    // shuffle the inequality rows so that the active ones are anywhere
+    else
     {
+        for (int i = 0; i < m; ++i)
+        {
+            random_row(i);
+        }
+        nactive = static_cast<int>(rng.integer(0, std::min(m, n - p)));
+        if (!qp && rng.chance(0.7))
+        {
+            nactive = std::min(m, n - p); // a vertex
+        }
+        nweak = (rng.chance(0.15) && m > nactive) ? static_cast<int>(rng.integer(1, std::min(2, m - nactive))) : 0;
+        for (int i = 0; i < m; ++i)
+        {
+            if (i < nactive + nweak)
+            {
+                // tight at x*; keep the interior direction w strictly inside (Slater) unless `nointerior`
+                if (!nointerior && P.G.row(i).dot(w) > 0.0)
+                {
+                    P.G.row(i) *= -1.0;
+                }
+                u(i)   = i < nactive ? su * rng.uniform(0.1, 3.0) : 0.0;
+                P.h(i) = P.G.row(i).dot(xs);
+            }
+            else
+            {
+                inactive_row(i);
+            }
+        }
+        // shuffle the inequality rows so that the active ones are anywhere
         const auto perm = permutation(rng, m);
         emat_t     G2(m, n);
         evec_t     h2(m), u2(m);
@@ -627,8 +732,9 @@ void case_kkt(vf::ctx_t& c)
     }
 
     const std::string base = qp ? "qp" : "lp";
-    const auto        st   = solve(P, x0.size() == n ? &x0 : nullptr);
+    const auto        st   = solve(P, x0.size() == n ? &x0 : nullptr, rng.next());
     const bool        conv = judge(c, P, st, ref, base);
+    c.count(box ? "stated_with_bounds" : "stated_generic");
     c.count(x0.size() == n ? "solves_user_x0" : "solves_default_x0");
     if (conv)
     {
@@ -659,7 +765,7 @@ void case_kkt(vf::ctx_t& c)
             R.name = "multi";
         }
         const bool user = R.x0.size() == n && (R.P.G * R.x0 - R.P.h).maxCoeff() < 0.0;
-        const auto rs   = solve(R.P, user ? &R.x0 : nullptr);
+        const auto rs   = solve(R.P, user ? &R.x0 : nullptr, rng.next());
         c.count("restated_solves");
         if (judge(c, R.P, rs, R.ref, base + "-restated:" + R.name))
         {
@@ -679,7 +785,7 @@ void case_kkt(vf::ctx_t& c)
     if (c.want_sample())
     {
         vf::json_t j;
-        j.kv("n", n).kv("p", p).kv("m", m).kv("qp", qp).kv("rank_Q", rank).kv("active", nactive).kv("weakly_active", nweak);
+        j.kv("n", n).kv("p", p).kv("m", m).kv("qp", qp).kv("bounds", box).kv("rank_Q", rank).kv("active", nactive).kv("weakly_active", nweak);
         j.kv("user_x0", x0.size() == n).kv("status", status_name(st.m_status)).kv("iters", st.m_iters);
         j.kv("fstar", ref.fstar).kv("fx", st.m_fx);
         j.arr("xstar", xs.data(), static_cast<size_t>(n), 12).vec("x", st.m_x, 12);
@@ -990,7 +1096,7 @@ void case_status(vf::ctx_t& c)
     const auto        run  = [&](const prog_t& prog, const evec_t& ux0, const std::string& tag)
     {
         const bool user = ux0.size() == n && prog.m() > 0 && (prog.G * ux0 - prog.h).maxCoeff() < 0.0;
-        const auto st   = solve(prog, user ? &ux0 : nullptr);
+        const auto st   = solve(prog, user ? &ux0 : nullptr, rng.next());
         c.count("clause_status");
         c.count("clause_status:" + what);
         c.count(std::string("said:") + (kind <= 3 ? "infeasible->" : "unbounded->") + status_name(st.m_status));
@@ -1874,7 +1980,7 @@ void case_integer(vf::ctx_t& c)
         c.count(has_opt ? "optimum_decided" : "optimum_undecided");
     }
 
-    const auto st   = solve(P, x0.size() == I.n ? &x0 : nullptr);
+    const auto st   = solve(P, x0.size() == I.n ? &x0 : nullptr, rng.next());
     const bool conv = judge(c, P, st, ref, "integer-" + kind);
     c.count(std::string("said:") + tname + "->" + status_name(st.m_status));
     if (what != truth::solvable)
